@@ -110,6 +110,28 @@ def malformed_calls(prog: Program, mod) -> tuple[int, list[str]]:
         if not isinstance(node, ast.Call):
             continue
         name = prog.resolve_expr_name(mod, node.func)
+        if name and name.startswith("builtins.") and "." not in name[9:]:
+            # a builtin function whose signature the interpreter publishes (a fact about Python, nothing of the package runs)
+            import builtins as _b
+            import inspect as _i
+
+            fn = getattr(_b, name[9:], None)
+            if fn is None or isinstance(fn, type) or any(isinstance(a, ast.Starred) for a in node.args) or any(k.arg is None for k in node.keywords):
+                continue
+            try:
+                sg = _i.signature(fn)
+            except (TypeError, ValueError):
+                continue
+            ps_ = list(sg.parameters.values())
+            if any(p_.kind in (p_.VAR_POSITIONAL, p_.VAR_KEYWORD) for p_ in ps_):
+                continue
+            n += 1
+            npos = [p_ for p_ in ps_ if p_.kind in (p_.POSITIONAL_ONLY, p_.POSITIONAL_OR_KEYWORD)]
+            nreq = [p_ for p_ in npos if p_.default is p_.empty]
+            kwok = {p_.name for p_ in ps_ if p_.kind in (p_.POSITIONAL_OR_KEYWORD, p_.KEYWORD_ONLY)}
+            if len(node.args) > len(npos) or len(node.args) + len(node.keywords) < len(nreq) or any(k.arg not in kwok for k in node.keywords):
+                bad.append(f"{mod.relpath}:{node.lineno} {name[9:]}(...): {len(node.args)} positional / {len(node.keywords)} keyword arguments do not fit {sg}")
+            continue
         if not name or not name.startswith("typelib."):
             continue
         target = prog.functions.get(name)
